@@ -157,6 +157,9 @@ class _Ctx:
     def without_stmts(self):
         ctx = _Ctx()
         ctx.env = dict(self.env)
+        # the properties in force are inherited by whatever is compiled in the
+        # new block: an inner `(! :round toZero ...)` keeps the precision
+        ctx.props = dict(self.props)
         return ctx
 
 
@@ -428,7 +431,7 @@ class _FPCore2FPy:
         # create loop body
         loop_env = dict(env)
         stmts: list[Stmt] = []
-        update_ctx = _Ctx(env=env, stmts=stmts)
+        update_ctx = _Ctx(env=env, props=ctx.props, stmts=stmts)
         for var, _, update in e.while_bindings:
             # compile value
             update_e = self._visit(update, update_ctx)
@@ -661,13 +664,15 @@ class _FPCore2FPy:
         return self._visit(e.body, body_ctx)
 
     def _visit_ctx(self, e: fpc.Ctx, ctx: _Ctx) -> Expr:
-        # compile body
-        val_ctx = ctx.without_stmts()
-        val = self._visit(e.body, val_ctx)
-
-        # compile properties to a context
+        # compile properties to a context: the annotation's own on top of
+        # the ones already in force, which the body inherits in turn
         props = self._visit_props(e.props, ctx)
         fpc_ctx = FPCoreContext(**props)
+
+        # compile body
+        val_ctx = ctx.without_stmts()
+        val_ctx.props = props
+        val = self._visit(e.body, val_ctx)
 
         # try to convert to a native FPy context
         try:
@@ -806,15 +811,17 @@ class _FPCore2FPy:
 
         # compile 
         props = self._visit_props(f.props, ctx)
-        ctx.props = props
+        # what the body's annotations inherit (kept whole: the metadata below
+        # drops the precision, which the function's context carries)
+        ctx.props = dict(props)
 
         # possibly generate context
-        if 'precision' in props:
+        if 'precision' in props or 'round' in props:
             try:
                 ctx_val: None | Context | FPCoreContext = FPCoreContext(**props).to_context()
             except NoSuchContextError:
                 ctx_val = FPCoreContext(**props)
-            del props['precision']
+            props.pop('precision', None)
         else:
             ctx_val = None
 
